@@ -131,7 +131,7 @@ def build_universe(seed, tier):
     z11 = Adt(byname['KZ11'], [], [])
     kd5z = Adt(byname['KD5'], [Seq('vec', z11)], [])
     for t in (z11, kd5z):
-        t.known = ('C01', 'C02', 'C07')
+        t.known = ('C01', 'C02', 'C07', 'C09')
     unit1 = Array(Prim('unit'), 1)
     # (the 12^4-tuple itself, as a value type, makes `serialize_zero` of an unoptimized build a 40 MB function with an 8 MB
     # frame — every `max_size_of` of its 20736 leaves is `#[inline(always)]` — so it is used as a marker only)
@@ -158,6 +158,16 @@ def build_universe(seed, tier):
         pt3 = Phantom(t3)
         pt3.known = ('C01', 'C02', 'C06')       # (names of half a megabyte: exercised where the length of the name matters)
         st += [pt3]
+    # round 8: the witnesses of KF-C07-1 (unit 3) belong to format 1.1 as well: their bytes are pinned in the corpus, behind
+    # strings of several lengths (the padding formula is exercised at positions where the bit formula and modular arithmetic
+    # differ); zero-copy structures whose `repr(C)` is not the first `repr` attribute
+    def wit():
+        r = Range('t', Array(Prim('u8'), 3)); r.known = ('C06', 'C07', 'C12', 'C18'); return r
+    # sums whose payload is written as zero bytes, alone (the tag is the last byte of the stream) and followed by data
+    un = Prim('unit')
+    st += [Sum('bnd', [un]), Sum('opt', [un]), Sum('cf', [un, un]), Sum('bnd', [Phantom(Prim('u8'))]), Sum('bnd', [Array(Prim('u64'), 0)]),
+           Adt(byname['KD5'], [Sum('bnd', [un])], []), Seq('vec', Sum('bnd', [un])), Sum('opt', [Sum('bnd', [un])])]
+    st += [wit(), Seq('vec', wit()), Adt(byname['KD5'], [Seq('vec', wit())], []), Adt(byname['KRC1'], [], []), Seq('vec', Adt(byname['KRC2'], [], []))]
     # round 6: twins (same identifier and same `type_name`, different definitions), used one after the other in one process
     tw = twin_defs('K')
     sd = sd + tw
@@ -243,7 +253,7 @@ def build_universe(seed, tier):
     # witnesses of the recorded finding KF-C07-1 / KF-C12-1: an alignment unit that is not a power of two (3)
     w1 = Range('t', Array(Prim('u8'), 3)); w2 = Seq('vec', Range('t', Array(Prim('u8'), 3)))
     for w in (w1, w2):
-        w.known = ('C07', 'C12')
+        w.known = ('C06', 'C07', 'C12', 'C18')
         if w.rust() not in seen:
             seen.add(w.rust()); u.types.append(w)
     # alignments above 64 are beyond what the loaders support: such types (KZ9, KD6 and their near-miss mutants) are
@@ -251,7 +261,7 @@ def build_universe(seed, tier):
     for t in u.types:
         for x in t.walk():
             if isinstance(x, Adt) and x.d.align_attr > 64 and not x.known:
-                x.known = ('C01', 'C02', 'C07') if x.d.align_attr > 128 else ('C01', 'C02', 'C03', 'C04', 'C06', 'C07', 'C14', 'C18')
+                x.known = ('C01', 'C02', 'C07', 'C09') if x.d.align_attr > 128 else ('C01', 'C02', 'C03', 'C04', 'C06', 'C07', 'C09', 'C14', 'C18')
     # generic arguments: phantom data of different types; all instances of one generic definition, pairwise
     ph = [add(Phantom(Prim('u8'))), add(Phantom(Prim('i8'))), add(Phantom(Str())), add(Seq('vec', Phantom(Prim('u8')))), add(Seq('vec', Phantom(Str())))]
     for (a, b) in ((ph[0], ph[1]), (ph[0], ph[2]), (ph[3], ph[4])):
@@ -316,7 +326,12 @@ def run_harness(lines, extra_args=None, binary=None):
     """run the harness on protocol lines; returns the list of answer lines (one per answering line).
     If the process dies (abort/segfault), the lines answered so far are returned followed by '<died rc>'."""
     inp = '\n'.join(lines) + '\n'
-    p = subprocess.run([binary or HARNESS_BIN] + (extra_args or []), input=inp, capture_output=True, text=True, timeout=3600)
+    try:
+        p = subprocess.run([binary or HARNESS_BIN] + (extra_args or []), input=inp, capture_output=True, text=True, timeout=int(os.environ.get('VERIF_RUN_TIMEOUT', '3000')))
+    except subprocess.TimeoutExpired as e:
+        out = (e.stdout.decode('utf-8', 'replace') if isinstance(e.stdout, bytes) else (e.stdout or '')).splitlines()
+        out.append('<died rc=-1 timeout: the implementation did not answer in time (a call that never returns)>')
+        return out
     out = p.stdout.splitlines()
     if p.returncode != 0:
         out.append('<died rc=%d %s>' % (p.returncode, p.stderr.strip()[-200:]))
@@ -359,7 +374,12 @@ def memcheck(header, lines, budget=500, seed=1):
 
 def run_model(names, lines):
     inp = '\n'.join(names + lines) + '\n'
-    p = subprocess.run([DRIVER], input=inp, capture_output=True, text=True, timeout=3600)
+    try:
+        p = subprocess.run([DRIVER], input=inp, capture_output=True, text=True, timeout=int(os.environ.get('VERIF_RUN_TIMEOUT', '3000')))
+    except subprocess.TimeoutExpired as e:
+        out = (e.stdout.decode('utf-8', 'replace') if isinstance(e.stdout, bytes) else (e.stdout or '')).splitlines()
+        out.append('<died rc=-1 timeout: the model driver did not finish in time>')
+        return out
     out = p.stdout.splitlines()
     if p.returncode != 0:
         out.append('<died rc=%d %s>' % (p.returncode, p.stderr.strip()[-200:]))
@@ -447,6 +467,8 @@ def answers_agree(impl, model):
                 if sep in x and sep in y and x.split(sep, 1)[0] == y.split(sep, 1)[0]:
                     x, y = x.split(sep, 1)[1], y.split(sep, 1)[1]
                     break
+            if y == '*':
+                continue
             if '..' in y and hex_match(x, y):
                 continue
             return False
